@@ -23,7 +23,7 @@ SHARDS = {"quick": 12, "thorough": 14}
 CASE_FUEL = 200000
 
 NUMS = [0, 1, -1, 2, 3, -3, 5, 2 ** 53, 2 ** 53 + 1, 2 ** 53 + 2, 0.5, -0.0, 1.0, 2.5, -2.5, float(2 ** 53), float("inf"),
-        float("-inf"), True, False, 1e-9, 10 ** 30]
+        float("-inf"), True, False, 1e-9, 10 ** 30, 10 ** 400, -(10 ** 400)]   # ints beyond the range of floats are numbers too
 FOREIGN = ["a", None, (1,), b"x", 1j, float("nan")]
 SET_OPS = ["add", "add", "discard", "remove", "in", "pop", "probe", "add", "in", "clear", "discard-foreign"]
 MAP_OPS = ["set", "set", "del", "get", "in", "pop", "setdefault", "update", "probe", "popitem", "set", "get", "clear",
